@@ -16,7 +16,7 @@ CHECKS = {
          "kanziref/v2 (snapshot of the pinned commit, under /verif/ref) and the current tree are linked into the same binary. 89 corpus streams written by the reference encoder (every transform, every entropy codec, checksum 0/32/64, hint, small blocks, headerless, > 4 MiB BWT, long runs / long distances) must decode with the current Reader (jobs 1 and 3) to their recorded SHA-256; 600 (quick) / 20 000 (thorough) generated (config, data) pairs on which the reference round-trips must satisfy current.Read(reference.Write(x)) == x; XXHash32/64 are compared on 3 000 random buffers.",
          "Only bitstream version 6 as written by the snapshot; pairs on which the reference itself fails are skipped (counted in the evidence).", "DESIGN.md §3 C10"),
  "C18": ("exploration", "race detector (go build -race) over concurrent multi-pipeline stress with hook-perturbed scheduling and varied GOMAXPROCS; race log parsed, de-duplicated and attributed; outputs compared with isolated runs",
-         "The harness and /repo/v2 are built with -race -tags verif. 36 pipelines covering all 19 transforms and 9 entropy codecs, jobs 1..16, a > 4 MiB BWT block decoded with several jobs (parallel inverse BWT), listeners with verbosity 5, several UTF/TEXT pipelines side by side, run 16 at a time for 2 (quick) / 16 (thorough) rounds with GOMAXPROCS alternating between all CPUs, 4 and 2, yields/sleeps injected at the hand-off hooks; then 38 cold-start processes (one per transform, entropy codec and level chain) in which the FIRST use of the codec is made by 4 goroutines at once (lazy initialisers, pools), with expected streams computed by the parent. Every stream and decoded output is compared with the isolated run; GORACE halt_on_error=0 log is parsed and any report with a frame in kanzi-go/v2 is a violation.",
+         "The harness and /repo/v2 are built with -race -tags verif. 36 pipelines covering all 19 transforms and 9 entropy codecs, jobs 1..16, a > 4 MiB BWT block decoded with several jobs (parallel inverse BWT), listeners with verbosity 5, several UTF/TEXT pipelines side by side, run 16 at a time for 2 (quick) / 8 (thorough) rounds with GOMAXPROCS alternating between all CPUs, 4 and 2, yields/sleeps injected at the hand-off hooks; then 38 cold-start processes (one per transform, entropy codec and level chain) in which the FIRST use of the codec is made by 4 goroutines at once (lazy initialisers, pools), with expected streams computed by the parent. Every stream and decoded output is compared with the isolated run; GORACE halt_on_error=0 log is parsed and any report with a frame in kanzi-go/v2 is a violation.",
          "The race detector sees executed interleavings only.", "DESIGN.md §3 C18"),
  "C04": ("exploration", "runtime monitor: byte-equality oracle at the sink across job counts, Write partitions and hook-driven schedules (random yields/sleeps and controlled PCT priority schedules)",
          "For 11 configurations (incl. the CLI level chains that consult per-block data-type hints, BWT, ROLZX, TPAQ, CM) and multi-batch inputs whose blocks have heterogeneous content, the sink bytes of every variant - jobs 2..64, four Write partitions, 4 hint modes, schedules none/free/PCT - are compared with the jobs=1 single-Write run. About 660 (quick) / 8 000 (thorough) variant runs; evidence reports the number of distinct hand-off orders observed. Exploration: schedules are sampled.",
@@ -25,8 +25,8 @@ CHECKS = {
          "Valid streams (6 codec pairs, 1..130 blocks incl. > 63, partial last batch, with/without hint) are decoded with jobs {1,2,3,4,8,64} under PCT and perturbed schedules and must equal the original; streams whose block k is damaged / has a forged stored length are decoded while the controller places the neighbours before their wait, spinning, inside the shared read or past their publish: everything returned, also after the error, must be a prefix of the original and the failure must be reported. About 11 000 (quick) executions.",
          "Same trusted base as C07.", "DESIGN.md §3 C05"),
  "C07": ("exploration", "runtime monitor: controlled cooperative scheduler on the protocol step hook (exhaustive DFS for 2 tasks, preemption-bounded DFS for 3-4, PCT for 5-16) with an online trace automaton and logical stuck detection; fault injection at every (task, step); offline porcupine linearizability check of free-running histories against a ticket-lock-with-cancel model",
-         "The step hook blocks every block task at every protocol step (also each spin iteration) and a controller releases exactly one task at a time, so the recorded event order is the execution order of the protocol steps. All interleavings of one batch of 2 tasks are enumerated (both sides: no fault, every (task, step) injected failure, damaged / forged blocks, end-of-stream and skipped-block outcomes); 3-4 tasks with preemption bound 1-2, 5-16 tasks with PCT; sink failures inside the shared section. The automaton checks mutual exclusion, increasing block order, the counter value at acquisition, no acquisition after a cancel, every task exits (a state where all live tasks spin on an unchanged counter is a deadlock - no clocks), and that a failed task makes the API call that encloses its batch return an error (encode side: the very Write or Close call; decode side: some Read call). 400 free-running histories with random yields are checked with porcupine. Exhaustive only for the 2-task single-batch scenarios listed in the evidence.",
-         "Atomicity is at hook-step granularity in controlled mode. Trusts harness/sched (scheduler, monitor, ~600 lines) and the 12 hook call sites in v2/io/CompressedStream.go.", "DESIGN.md §3 C07"),
+         "The step hook blocks every block task at every protocol step (also each spin iteration) and a controller releases exactly one task at a time, so the recorded event order is the execution order of the protocol steps. All interleavings of one batch of 2 tasks are enumerated (both sides: no fault, every (task, step) injected failure, damaged / forged blocks, end-of-stream and skipped-block outcomes); 3-4 tasks with preemption bound 1-2, 5-16 tasks with PCT; sink failures inside the shared section. The automaton checks mutual exclusion, increasing block order, the counter value at acquisition, no acquisition after a cancel, every task exits (deadlock = the batch announced through the batch hook has fully started, every live task sits in the wait loop and the counter can satisfy none of them - a logical certificate, no clocks, in controlled and in free-running mode), and that a failed task makes the API call that encloses its batch return an error (encode side: the very Write or Close call; decode side: some Read call). 400 free-running histories with random yields are checked with porcupine. Exhaustive only for the 2-task single-batch scenarios listed in the evidence.",
+         "Atomicity is at hook-step granularity in controlled mode. Trusts harness/sched (scheduler, monitor, ~600 lines) and the 12 step-hook call sites + 2 batch-announcement call sites in v2/io/CompressedStream.go.", "DESIGN.md §3 C07"),
  "C02": ("exploration", "runtime monitor: prefix oracle over ALL bytes returned (also after an error) on streams damaged only inside block payloads located by the independent container parser",
          "13 checksummed streams (codec pairs, checksum 32/64, headerless, 1 MiB blocks) are damaged inside block payloads only: every payload bit of two small NONE/NONE streams (exhaustive), plus ~150 (quick) random bit flips / byte substitutions / swaps / zeroed runs per stream, in one or several blocks, biased to the in-block header, the stored checksum and the last bytes; stored checksums are also exchanged between blocks (content differs from what was hashed). The reader (jobs 1-4, varying buffer sizes) keeps calling Read up to 64 times after the first error; the concatenation of everything returned must be a prefix of the original and clean EOF implies equality.",
          "32-bit checksums legitimately pass 2^-32 of random damage (< 10^-4 per run). Whole self-consistent payloads exchanged between blocks are not generated (the format hashes content only).", "DESIGN.md §3 C02"),
